@@ -169,3 +169,49 @@ def impl_hier_permute(case):
                 raise
             out[tag] = {"ok": False, "exc": type(e).__name__, "msg": str(e)[:300]}
     return out
+
+
+# ------------------------------------------------------------------ aggregation (C15)
+
+def impl_aggregate(case):
+    from bartiq import compile_routine
+    from bartiq.transform import add_aggregated_resources
+
+    def node(nd, children=()):
+        return {"name": nd["name"], "input_params": ["N", "eps"],
+                "resources": [{"name": n, "type": t, "value": to_str(v)} for n, t, v in nd["resources"]],
+                "children": list(children)}
+
+    nodes = case["nodes"]
+    prog = node(nodes[0], [node(n) for n in nodes[1:]])
+    prog["linked_params"] = [{"source": "N", "targets": [f"{n['name']}.N" for n in nodes[1:]]},
+                             {"source": "eps", "targets": [f"{n['name']}.eps" for n in nodes[1:]]}] if len(nodes) > 1 else []
+    c = compile_routine({"version": "v1", "program": prog}).routine
+    d = {a: {b: (to_str(m)) for b, m in mp} for a, mp in case["dict"]}
+    import copy
+    snapshot = copy.deepcopy(d)
+    out = add_aggregated_resources(c, d, remove_decomposed=case["remove"])
+    flags = {"inexact": False}
+    trees = [out] + [out.children[n["name"]] for n in nodes[1:]]
+    res = []
+    for t in trees:
+        lst = []
+        for r in t.resources.values():
+            e, inex = from_sympy(r.value)
+            flags["inexact"] = flags["inexact"] or inex
+            lst.append([r.name, r.type.value, e])
+        res.append(lst)
+    return {"nodes": res, "inexact": flags["inexact"], "dict_unchanged": d == snapshot}
+
+
+# ------------------------------------------------------------------ highwater (C16)
+
+def impl_highwater(case):
+    from bartiq import compile_routine
+    from bartiq.compilation.derived_resources import calculate_highwater
+    from hier import to_qref
+
+    flags = {"inexact": False}
+    res = compile_routine(to_qref(case["routine"]),
+                          derived_resources=[{"name": "qubit_highwater", "type": "qubits", "calculate": calculate_highwater}])
+    return {"tree": walk_compiled(res.routine, flags), "inexact": flags["inexact"]}
